@@ -45,7 +45,7 @@ def case_term(r):
     multi = tlist("(list N * N * N)", ["(%s, %s, %s)" % (nlist(m[0]), cN(m[1]), cN(m[2])) for m in im["multi"]])
     exc = tlist("(N * N)", ["(%s, %s)" % (cN(a), cN(b)) for a, b in ed.get("bin_exc", [])])
     aed = tlist("(N * N * N * N)", ["(%s, %s, %s, %s)" % tuple(cN(x) for x in e) for e in ed.get("armor_edits", [])])
-    return "(mkCase %s %s %s %s %s %s %s %s %s %s %s %s %s %s)" % (
+    return "(mkCase %s %s %s %s %s %s %s %s %s %s %s %s %s %s %s)" % (
         opt_ub(im["sender_text"]),
         tlist("bytes", [ub(x) for x in im["rcpt_texts"]]),
         chunks(im["slate_bin"]),
@@ -55,7 +55,7 @@ def case_term(r):
         chunks(im["armor"]),
         chunks(im["bin"]),
         chunks(im["plain"] or ""),
-        keys, multi, cN(ed.get("bin_n", 0)), exc, aed)
+        keys, multi, cN(ed.get("bin_stride", 1)), cN(ed.get("bin_n", 0)), exc, aed)
 
 
 def explain(flags, r):
@@ -109,10 +109,6 @@ def run_harness(binp, wd, name, args, env=None):
     return load(out)
 
 
-def slim(case):
-    return case
-
-
 def run(tier, replay):
     V = vlib.Verdict(PROP, tier)
     wd = vlib.workdir(PROP)
@@ -128,7 +124,7 @@ def run(tier, replay):
     n_corpus = len(rows)
     if not replay:
         if tier == "quick":
-            rows += run_harness(binp, wd, "gen.jsonl", ["--n", "18", "--model-edits", "20"])
+            rows += run_harness(binp, wd, "gen.jsonl", ["--n", "15", "--model-edits", "20"])
         else:
             for k in range(4):
                 rows += run_harness(binp, wd, "gen%d.jsonl" % k, ["--n", "40", "--model-edits", "40"],
